@@ -41,6 +41,15 @@ func genValue(rng *hx.Rng, depth int) interface{} {
 	return genObject(rng, depth-1)
 }
 func genKey(rng *hx.Rng) string {
+	if rng.Chance(20) {
+		// text that LOOKS like JSON escapes (a literal backslash followed by u003c ...), HTML characters, line separators
+		toks := []string{"\\", "u003c", "u0026", "u003e", "<", ">", "&", "\"", "n", "u00", "\u2028", "\u2029", "é", "/"}
+		var sb strings.Builder
+		for i, n := 0, 1+rng.Intn(6); i < n; i++ {
+			sb.WriteString(toks[rng.Intn(len(toks))])
+		}
+		return sb.String()
+	}
 	return []string{"", "a", "key", "é中", "with\"quote", "esc\\n\n\t", "\u0000nul", "<html>&", "k" + fmt.Sprint(rng.Intn(1000))}[rng.Intn(9)]
 }
 func genObject(rng *hx.Rng, depth int) map[string]interface{} {
